@@ -1524,6 +1524,37 @@ pub fn gen_c03<W: Write>(w: &mut W, tier: &str, seed: u64) {
             emit(w, "C03", "fuzz", &v, &[]);
         }
     }
+    // CONT after a runtime error resumes behind the failed instruction with the operand stack one value short:
+    // whatever the following instructions then find on the stack, nothing may panic (D21)
+    emit(w, "C03", "fuzz", &["10 DEF FNA(X,Y,Z)=1".to_string(), "20 FOR I=1 TO 2".to_string(), "30 A=FNA(1\\0,1\\0,\"hello\")".to_string(), "RUN".to_string(), "CONT".to_string(), "CONT".to_string(), "NEXT".to_string(), "PRINT 1".to_string()], &[]);
+    emit(w, "C03", "fuzz", &["10 X$=\"}\"+(\"}\"+STR$(3+(1\\0)))".to_string(), "20 ON 1\\0 GOTO :CLS:DEFINT A-B".to_string(), "RUN".to_string(), "GOTO 20".to_string(), "CONT".to_string(), "PRINT 1".to_string()], &[]);
+    let failing = ["1\\0", "\"s\"+1", "Q(99)", "32767+1", "LOG(0)", "CHR$(-1)", "FNU(1)", "A$*2", "VAL(5)", "MID$(\"x\",0)"];
+    let shapes = ["A=FNA({0},{1},\"hello\")", "FOR J={0} TO {1} STEP \"x\"", "GOSUB 100:A={0}+{1}", "ON {0} GOSUB 100,100", "PRINT {0};{1};TAB({0})", "DIM Z({0},{1})", "SWAP A,{0}", "Q({0})={1}", "MID$(A$,{0})=\"z\"", "IF {0} THEN PRINT {1}", "WHILE {0}:WEND", "A$=LEFT$(\"abc\",{0})+STRING$({1},\"x\")", "READ A,B:RESTORE {0}", "INPUT A:B={0}", "DEF FNB(P)={0}:B=FNB({1})", "NEXT I:A={0}", "RETURN:A={0}", "ON {0} GOTO :CLS:DEFINT A-B", "ON {0} GOSUB :DEFSTR S:ERASE Q", "X$=\"}\"+(\"}\"+STR$(3+({0})))", "ON {0} GOTO 100,100:DEFDBL D-E:SWAP A,B", "DEFINT A-{1}"];
+    let afters = ["GOTO 30", "GOTO 40", "GOSUB 30", "NEXT", "NEXT I", "RETURN", "WEND", "PRINT FNA(1,2,3)", "PRINT I;A;J", "NEXT J,I", "CONT", "GOSUB 100", "FOR K=1 TO 2:NEXT", "CLEAR", "PRINT \"ok\""];
+    let nc = if tier == "thorough" { 6_000 } else { 400 };
+    for _ in 0..nc {
+        let mut v: Vec<String> = vec!["10 DEF FNA(X,Y,Z)=X+Y".to_string(), "20 FOR I=1 TO 2".to_string(), "25 DATA 1,2".to_string()];
+        let ns = 1 + rng.below(3);
+        for k in 0..ns {
+            let sh = *rng.pick(&shapes);
+            let (f0, f1) = (*rng.pick(&failing), *rng.pick(&failing));
+            let st = sh.replace("{0}", f0).replace("{1}", f1);
+            v.push(format!("{} {}", 30 + 10 * k, st));
+        }
+        v.push("90 NEXT I:END".to_string());
+        v.push("100 A=A+1:RETURN".to_string());
+        v.push("RUN".to_string());
+        for _ in 0..(1 + rng.below(6)) {
+            v.push("CONT".to_string());
+        }
+        for _ in 0..(1 + rng.below(4)) {
+            v.push(rng.pick(&afters).to_string());
+            if rng.chance(1, 2) {
+                v.push("CONT".to_string());
+            }
+        }
+        emit(w, "C03", "fuzz", &v, &[]);
+    }
     // INPUT with hostile replies: quotes, commas, blanks, nothing, non-ASCII, over-long
     let nasty = ["\"", "\"\"", " \" ", ",", "\",", "7, \"", "", " ", "\"\"\"", "\"a", "a\"", "é,\"", "\u{e9}a,b", "\",\"", ",,,,", "1,2,3,4,5,6", "1e999", "&H", "&HFFFFF", "-", "+", ".", "1e", "\u{a0}", "\t"];
     for stmt in ["INPUT A$", "INPUT N", "INPUT N,A$", "INPUT A$,N", "INPUT A$,B$,C$", "INPUT \"P\";A$", "INPUT ,A$,N%", "INPUT Q(N),N,A$(1)"] {
